@@ -114,16 +114,26 @@ class Scope(FortranObj):
         errors: list[Diagnostic] = []
         known_types: dict[str, FortranObj] = {}
 
+        def line_of(child) -> int:
+            # An entity brought in by INCLUDE is declared, as far as this file is
+            # concerned, on the line of the INCLUDE statement
+            if child.file_ast is not self.file_ast:
+                for inc in self.file_ast.include_statements:
+                    if any(obj is child for obj in inc.scope_objs):
+                        return inc.line_number
+                return self.sline
+            return child.sline
+
         for child in self.children:
             # Skip masking/double checks for interfaces
             if child.get_type() == INTERFACE_TYPE_ID:
                 continue
             # Check other variables in current scope
             if child.FQSN in fqsn_dict:
-                if child.sline < fqsn_dict[child.FQSN]:
-                    fqsn_dict[child.FQSN] = child.sline - 1
+                if line_of(child) < fqsn_dict[child.FQSN]:
+                    fqsn_dict[child.FQSN] = line_of(child) - 1
             else:
-                fqsn_dict[child.FQSN] = child.sline - 1
+                fqsn_dict[child.FQSN] = line_of(child) - 1
 
         contains_line = -1
         if self.get_type() in (
@@ -145,15 +155,17 @@ class Scope(FortranObj):
         for child in self.children:
             if child.name.startswith("#"):
                 continue
-            line_number = child.sline - 1
+            line_number = line_of(child) - 1
             # Check for type definition in scope
             def_error, known_types = child.check_definition(
                 obj_tree, known_types=known_types, interface=is_interface
             )
             if def_error is not None:
+                if child.file_ast is not self.file_ast:
+                    def_error.sline, def_error.find_word = line_number, None
                 errors.append(def_error)
             # Detect contains errors
-            if contains_line >= child.sline and child.get_type(no_link=True) in (
+            if contains_line >= line_of(child) and child.get_type(no_link=True) in (
                 SUBROUTINE_TYPE_ID,
                 FUNCTION_TYPE_ID,
             ):
@@ -175,7 +187,7 @@ class Scope(FortranObj):
                     line_number,
                     message=f'Variable "{child.name}" declared twice in scope',
                     severity=1,
-                    find_word=child.name,
+                    find_word=child.name if child.file_ast is self.file_ast else None,
                 )
                 new_diag.add_related(
                     path=self.file_ast.path,
@@ -205,7 +217,7 @@ class Scope(FortranObj):
                             f'Variable "{child.name}" masks variable in parent scope'
                         ),
                         severity=2,
-                        find_word=child.name,
+                        find_word=child.name if child.file_ast is self.file_ast else None,
                     )
                     new_diag.add_related(
                         path=parent_var.file_ast.path,
